@@ -24,11 +24,14 @@ RULE = ("(a) `bs` (buffer_size_const) vs the Lean model over G-opt x format cata
         "non-trivial = `ok` result of a non-default option set or a panic; distinct = distinct ops")
 TECHNIQUE = ("Lean 4 theorems on the buffer-faithful model (high-water mark < buffer_size_const outside explicitly excluded option regions, with "
              "decided witnesses inside them; short buffers give PANIC or an in-buffer result, never FAULT) + correspondence incl. guard pages")
-LEVEL_TEXT = ("Proved in Lean (Props/C09.lean) on the buffer-faithful model of write_float and the decimal layout functions: for every digit list "
-              "(<= 17 digits), exponent, valid options and format the highest index touched is below buffer_size_const EXCEPT in the stated regions "
-              "(digit-writer slice demand after many leading zeros, exponent-writer slice demand after many padding zeros, sign + carry at a large "
-              "positive break), each with a decided witness that replays as a panic on the implementation; any shorter buffer yields PANIC or an "
-              "in-buffer result, never FAULT. Integers: FORMATTED_SIZE from Gen.Sizes bounds the numeral, except unsigned + required '+' sign.")
+LEVEL_TEXT = ("Proved in Lean (Props/C09.lean) on the buffer-faithful model of write_float and both decimal back-ends (algorithm.rs, compact.rs): "
+              "float_bound - for every digit list the generators can produce, every scientific exponent of a finite float, valid format and options in "
+              "SafeOpts, a buffer of buffer_size_const bytes suffices: the call returns, writes at most buffer_size_const bytes and never touches an index "
+              ">= buffer_size_const (the slice need of every layout function is characterised exactly: panic <-> len < need). Outside SafeOpts the statement "
+              "is false (float_bound_full_false): three decided witnesses (digit-writer slice demand after many leading zeros; exponent-writer slice demand "
+              "after min-digit padding; sign + '.0' at a large positive break, also compact) replay as panics on the implementation. short_buffer_safe - any "
+              "buffer: PANIC or an in-buffer result, never FAULT. int_bound - FORMATTED_SIZE(_DECIMAL) of Gen.Sizes holds sign + numeral of every integer "
+              "type in every radix (kernel-evaluated table), except the '+' of unsigned types (int_plus_sign_exception).")
 LEVEL_NOTE = ("Trusted: Lean kernel; rustc; harness (guard pages observe, do not prove, absence of stray accesses). Non-decimal float writers: "
               "correspondence only.")
 
@@ -246,6 +249,17 @@ def streams(tier, rng, fs, profile):
     out.append(("int-exact", gens.int_write_ops(rng, fs, scale=1)))
     if gens.has_format(fs):
         out.append(("int-reqsign", gens.int_write_reqsign(rng, fs)))
+        # exactly the documented size with a required '+' sign (unsigned types: known finding)
+        ex = []
+        for r in (10, 2, 7, 16, 36):
+            if r not in gens.radices(fs):
+                continue
+            f = gens.fmt_hex(gens.pack(r, flags=0xC | (1 << 5)))
+            for ty in gens.INT_TYPES:
+                lo, hi = gens.int_range(ty)
+                for v in (0, 1, hi, lo, hi // 3, rng.randint(lo, hi)):
+                    ex.append("wi %s %s %d -" % (ty, f, v))
+        out.append(("int-reqsign-exact", ex))
     out.append(("int-short", gens.int_write_shortbuf(rng, fs)))
     return out
 
